@@ -413,7 +413,7 @@ package connect
 //@   tags C08, C01, C07, C09, C06
 //@   requires c != nil && dst != nil && src != nil && dst != src && owned(dst) && owned(src)
 //@   nosafety overflow
-//@   assert@call(io.LimitReader#1): 0 <= arg1 && arg1 <= 9223372036854775807 && arg1 == readMaxBytes + 1   // label: the-limit-plus-one-does-not-wrap-around   // tags: C01, C09
+//@   assert@call(io.LimitReader#1): 0 <= arg1 && arg1 <= 9223372036854775807 && arg1 == readMaxBytes + 1   // label: the-limit-plus-one-does-not-wrap-around   // tags: C01, C09, C07, C08
 //@   assigns view(dst)
 //@   ensures res == nil ==> decompOK(c.decompressors, view(src)) && view(dst) == old(view(dst)) ++ decompBy(c.decompressors, view(src))   // label: appends-decompressed-source
 //@   ensures res == nil && readMaxBytes > 0 ==> |decompBy(c.decompressors, view(src))| <= readMaxBytes          // label: success-implies-within-limit   // tags: C09
@@ -488,6 +488,7 @@ package connect
 //@   ensures let S := old(rest(r.reader)) in res != nil && Is(res, io.EOF) && termerr(r.reader) == io.EOF ==> |S| == 0 || (completeFrame(r, S) && S[0] != 0 && S[0] != 1)   // label: eof-only-at-clean-end-or-flagged-frame   // tags: C04
 //@   ensures let S := old(rest(r.reader)) in res != nil && Is(res, io.EOF) && !coded(termerr(r.reader)) && !Is(termerr(r.reader), io.EOF) ==> completeFrame(r, S) && S[0] != 0 && S[0] != 1   // label: no-clean-end-when-the-transport-failed   // tags: C04
 //@   ensures let S := old(rest(r.reader)) in |S| >= 5 && r.readMaxBytes > 0 && declared(S) > r.readMaxBytes ==> res != nil   // label: oversize-on-the-wire-rejected   // tags: C09
+//@   assert@call((*compressionPool).Decompress#1): arg3 == r.readMaxBytes   // label: every-frame-is-decompressed-under-the-read-limit-flagged-ones-included   // tags: C09
 //@   ensures let S := old(rest(r.reader)) in completeFrame(r, S) && isCompressed(S) && r.compressionPool == nil ==> res != nil && !Is(res, io.EOF)   // label: compressed-without-negotiated-encoding-rejected   // tags: C07, C08
 //@   ensures res != nil ==> asErr(res) == res                                                                 // label: errors-are-coded
 
@@ -613,7 +614,7 @@ package connect
 //@   ensures res == wrapAll(3, flat(i), next)
 
 //@ func newChain(interceptors) res
-//@   tags C16, C19
+//@   tags C16, C19, C12
 //@   use frp_prefix
 //@   defines flat(res) == frp(seq(res.interceptors), |res.interceptors|)
 //@   ensures fresh(res) && typeis(res, "*chain") && flat(res) == fall(seq(interceptors), 0)        // label: flattens-in-declaration-order-skipping-nil
@@ -1017,13 +1018,14 @@ package connect
 //@   ensures pclosed(d.requestBodyReader)                                                           // label: closes-the-request-pipe-so-writes-fail
 
 //@ func (*duplexHTTPCall).Write(d, data) (n, err)
-//@   tags C15, C04
+//@   tags C15, C04, C06
 //@   requires d != nil && d.ctx != nil && d.requestBodyReader != nil && d.requestBodyWriter != nil && peer(d.requestBodyWriter) == d.requestBodyReader
 //@   assigns d.err, pclosed(d.requestBodyReader), cdone(d.ctx)
 //@   ensures callres("context.Context.Err", 1) == context.Canceled ==> n == 0 && err != nil && coded(err) && codeOf(err) == 1 && d.err != nil   // label: canceled-before-write
 //@   ensures callres("context.Context.Err", 1) == context.DeadlineExceeded ==> n == 0 && err != nil && coded(err) && codeOf(err) == 4 && d.err != nil   // label: expired-before-write
 //@   ensures callres("context.Context.Err", 1) == nil && old(pclosed(d.requestBodyReader)) ==> err == io.EOF   // label: write-after-the-call-failed-reports-eof
-//@   assert@call(context.Context.Err#1): called("(*duplexHTTPCall).ensureRequestMade", 1)   // label: the-request-is-started-before-the-context-is-consulted-so-the-response-side-never-waits-for-a-request-that-was-not-made   // tags: C04
+//@   ensures called("(*io.PipeWriter).Write", 1) && callres("(*io.PipeWriter).Write", 1, 1) != nil && Is(callres("(*io.PipeWriter).Write", 1, 1), io.ErrClosedPipe) ==> err == io.EOF && n == callres("(*io.PipeWriter).Write", 1, 0)   // label: a-write-cut-short-by-the-closed-request-pipe-reports-eof-whatever-was-written-so-the-caller-goes-on-to-read-the-response   // tags: C04, C06, C15
+//@   assert@call(context.Context.Err#1): called("(*duplexHTTPCall).ensureRequestMade", 1)   // label: the-request-is-started-before-the-context-is-consulted-so-the-response-side-never-waits-for-a-request-that-was-not-made   // tags: C04, C15
 
 //@ func (*duplexHTTPCall).Read(d, data) (n, err)
 //@   tags C15, C03, C04
@@ -1134,7 +1136,7 @@ package connect
 //@   doc: "Unmarshal parses the JSON-encoded data and stores the result in the value pointed to by v (it writes to v and to objects it allocates, nothing else). Assumed of its errors: encoding/json validates the whole input first and reports truncation as a *json.SyntaxError (unexpected end of JSON input), never as io.EOF; the custom UnmarshalJSON methods reachable from here (connectWireError) return fmt / protojson / base64 errors."
 
 //@ func (*connectStreamingUnmarshaler).Unmarshal(u, message) res
-//@   tags C04, C05, C06, C11, C09
+//@   tags C04, C05, C06, C11, C09, C07
 //@   requires u != nil && u.envelopeReader.reader != nil && !pooled(u.envelopeReader.reader) && termerr(u.envelopeReader.reader) != errSpecialEnvelope && u.envelopeReader.bufferPool != nil && u.envelopeReader.codec != nil
 //@   assigns everything
 //@   ensures res == nil ==> old(completeFrame(u.envelopeReader, rest(u.envelopeReader.reader)) && (rest(u.envelopeReader.reader)[0] == 0 || rest(u.envelopeReader.reader)[0] == 1))   // label: a-message-only-from-a-complete-data-frame
@@ -1147,8 +1149,11 @@ package connect
 //@   ensures res != errSpecialEnvelope ==> u.endStreamErr == old(u.endStreamErr)                        // label: end-stream-error-set-only-with-the-sentinel
 //@   ensures res == errSpecialEnvelope && u.endStreamErr != nil ==> u.endStreamErr.code != 0           // label: end-stream-error-has-a-non-zero-code   // tags: C06
 //@   ensures res == errSpecialEnvelope ==> u.trailer != nil && (forall k seq :: {mapdom(u.trailer, k)} mapdom(u.trailer, k) ==> canon(k) == k)   // label: end-stream-metadata-keys-are-canonical   // tags: C05, C06, C11
+//@   use lmem_concat
+// second invariant: every metadata value is kept under its canonical key (C06, C11)
 //@   loop 1:
 //@     invariant u.trailer != nil && (forall k seq :: {mapdom(u.trailer, k)} mapdom(u.trailer, k) ==> canon(k) == k)
+//@     invariant forall k seq :: {iterated(k)} iterated(k) ==> mapdom(u.trailer, canon(k)) && subl(mapval(ranged(), k), mapval(u.trailer, canon(k)))
 
 //@ constfield connectStreamingClientConn.duplexCall, connectStreamingClientConn.responseTrailer, connectStreamingClientConn.responseHeader, connectStreamingClientConn.compressionPools, connectStreamingClientConn.bufferPool
 //@ constfield duplexHTTPCall.requestBodyReader, duplexHTTPCall.requestBodyWriter, duplexHTTPCall.ctx, duplexHTTPCall.request, duplexHTTPCall.httpClient
@@ -1764,7 +1769,7 @@ package connect
 //@   ensures called("StreamingClientConn.Send", 1) && callres("StreamingClientConn.Send", 1) != nil && !Is(callres("StreamingClientConn.Send", 1), io.EOF) ==> err == callres("StreamingClientConn.Send", 1) && res == nil   // label: a-client-side-send-failure-is-returned
 
 //@ func (*Client).newConn$1(ctx, spec) res
-//@   tags C12, C11, C10
+//@   tags C12, C11, C10, C15
 //@   requires deref(c) != nil && deref(c).protocolClient != nil
 //@   assigns everything
 //@   assert@call(protocolClient.NewConn#1): arg1 == ctx   // label: the-connection-runs-under-the-context-the-interceptors-passed-down   // tags: C10, C15
@@ -2956,7 +2961,7 @@ package connect
 
 // handler.go: a unary or server-streaming request is exactly one message (C07)
 //@ func expectEndOfRequest(conn) err
-//@   tags C07
+//@   tags C07, C04
 //@   requires conn != nil
 //@   assigns everything
 //@   ensures err == nil ==> ended(conn)                                  // label: nil-only-when-the-request-stream-has-ended
